@@ -93,8 +93,8 @@ def _run(case, rec):
 
 
 def clauses():
-    return [Clause("mesh_measures", _case(), _run, quick=500, thorough=12000, rule="see RULE",
-                   floors={"nonstar": 0.15, "genus1": 0.02, "offset>=1": 0.2, "kind:voxel": 0.15, "kind:extrusion": 0.08, "kind:star": 0.08})]
+    return [Clause("mesh_measures", _case(), _run, quick=2500, thorough=12000, rule="see RULE",
+                   floors={"nonstar": 0.15, "genus1": 0.008, "offset>=1": 0.2, "kind:voxel": 0.15, "kind:extrusion": 0.08, "kind:star": 0.08})]
 
 
 def selftest():
